@@ -643,7 +643,7 @@ int World::exec(const Op &op) {
             for (auto &kv : live) kv.second.dims.clear();
     }
     switch (op.kind) {
-        case OP_flush: case OP_reopen: case OP_kill: case OP_drop: case OP_clock: case OP_flush_fault: case OP_use_stale: case OP_keep: case OP_second_view:
+        case OP_flush: case OP_reopen: case OP_kill: case OP_drop: case OP_clock: case OP_flush_fault: case OP_close_fault: case OP_use_stale: case OP_keep: case OP_second_view:
             return exec_session(op);
         case OP_ro_catalogue: case OP_mode_probe: case OP_version_cube:
             return exec_special_op(*this, op);
@@ -765,7 +765,7 @@ static int use_handle(World &w, Kept &k, int action, bool &threw_all) {
 }
 
 int World::exec_session(const Op &op) {
-    if (twin_safe && (op.kind == OP_kill || op.kind == OP_drop || op.kind == OP_flush_fault || op.kind == OP_use_stale || op.kind == OP_keep)) return 2;
+    if (twin_safe && (op.kind == OP_kill || op.kind == OP_drop || op.kind == OP_flush_fault || op.kind == OP_close_fault || op.kind == OP_use_stale || op.kind == OP_keep)) return 2;
     if (blind && op.kind == OP_reopen) {
         // the unobserved twin: close and reopen like the observed one, read nothing back - except after the plan's final restart
         if (!is_open) return 2;
@@ -828,6 +828,49 @@ int World::exec_session(const Op &op) {
         is_open = false; f = nix::none; ro_tracking = false;
         stop = true;
         return 1;
+    }
+    case OP_close_fault: {
+        // a write-class call issued inside close() meets a disk error (EIO, full disk) or a transparent perturbation (short write, EINTR).
+        // close() may report the failure by throwing - then nothing is claimed and the session is abandoned - but once it has *returned*
+        // the file on disk must be complete (C11's first clause is not conditional on the disk being kind)
+        if (!is_open || mode != 0 || f2_open) return 2;
+        FaultKind k = (FaultKind) (1 + ((unsigned) op.a[0]) % 4);
+        Node before = last;
+        live.clear();
+        flush_valid = false;
+        if (op.a[2] & 1) gather_handles(op.sub);
+        bool sticky = (op.a[3] & 1) != 0;      // the disk stays full / broken for the rest of the call
+        disk_arm_fault(k, ((unsigned) op.a[1]) % 16, sticky);
+        bool threw = false;
+        try { f.close(); } catch (const std::exception &) { threw = true; }
+        bool fired = disk_disarm_fault();
+        const char *kn = k == F_EIO ? "eio" : k == F_ENOSPC ? "enospc" : k == F_SHORT ? "short" : "eintr";
+        cnt.inc(std::string("fault.close.") + kn + (fired ? ".fired" : ".configured_only"));
+        arg_class = std::string("fault=") + std::to_string((int) k) + (fired ? ",fired" : ",not-fired") + (sticky && (k == F_EIO || k == F_ENOSPC) ? ",persistent" : "");
+        if (fired && sticky && (k == F_EIO || k == F_ENOSPC)) cnt.inc("fault.close.persistent");
+        is_open = false; f = nix::none; ro_tracking = false;
+        if (threw) { cnt.inc("fault.close.reported_by_exception"); stop = true; return 1; }
+        if (fired) cnt.inc("fault.close.returned_normally");
+        cnt.inc("close");
+        // the image as it is now (a copy on a new inode: libhdf5 may still hold the abandoned file)
+        std::string snap = dir + "/cf" + std::to_string(++file_gen) + ".nix";
+        disk_copy(path, snap);
+        bool ok_img = false;
+        try {
+            File g = File::open(snap, FileMode::ReadOnly);
+            ObsOpts o; Node d = observe(g, o, nullptr, &getters);
+            g.close();
+            std::string where;
+            if (!node_equal(before, d, where)) fail("C11.close-honest", std::string("close() returned normally (injected ") + kn + (fired ? " fired" : " not reached") + ") but the file on disk differs from what was written at " + where);
+            else ok_img = true;
+        } catch (const std::exception &e) {
+            fail("C11.close-honest", std::string("close() returned normally (injected ") + kn + (fired ? " fired" : " not reached") + ") but the file on disk cannot be opened: " + e.what());
+        }
+        if (!ok_img || (fired && (k == F_EIO || k == F_ENOSPC))) { disk_remove(snap); stop = true; return 0; }     // after a real error libhdf5's state for the old file is its own business: the run ends
+        disk_remove(path); path = snap;
+        if (!open_file(0, false)) { fail("C11.image-complete", "the file cannot be opened ReadWrite after close()"); return 0; }
+        last = obs();
+        return 0;
     }
     case OP_reopen: {
         if (!is_open) return 2;
